@@ -3,7 +3,9 @@
 
    Fronts transcribed from /repo/internal/api (current tree):
      msgpack.go:writeMsgPack     decode (a decoder panic is recovered: 500) -> database name ->
-                                 measurement names of every decoded record -> ArrowBuffer.Write
+                                 measurement names of every decoded record -> ArrowBuffer.Write, which
+                                 first refuses the whole request (ErrInvalidColumnName: 400) when a record has
+                                 an empty column/field/tag name or a row-format field named "time" (6c35f6a)
      lineprotocol.go:handleWrite database name -> precision -> parse -> BatchToColumnar ->
                                  measurement names -> one WriteColumnarRecord per measurement
      arrow_writer.go:Write       columnar records in order, then the row records grouped by
@@ -127,7 +129,7 @@ Definition row_recs (o : MP.ops) (items : list MP.item) : list rec :=
                  | None => RFail
                  end) (row_groups items).
 
-(* extractMeasurements: the non-empty measurement names of the decoded records *)
+(* extractMeasurements: the measurement names of the decoded records *)
 Definition item_meas (items : list MP.item) : list bytes :=
   flat_map (fun i => match i with
                      | MP.ICol m _ => [m]
@@ -135,9 +137,25 @@ Definition item_meas (items : list MP.item) : list bytes :=
                      | MP.IBad => []
                      end) items.
 
+(* ingest.ValidateRecordColumnNames on one decoded record.  For a columnar record the names are
+   read off the converted batch: a record whose conversion fails (ICol _ None) or a nested list
+   (IBad) is taken as acceptable here - the MessagePack model does not expose their column names;
+   the correspondence keeps "" out of such records. *)
+Definition is_empty (n : bytes) : bool := match n with [] => true | _ => false end.
+Definition item_names_ok (i : MP.item) : bool :=
+  match i with
+  | MP.ICol _ (Some b) => negb (existsb (fun c => is_empty (fst c)) (MP.b_cols b))
+  | MP.ICol _ None => true
+  | MP.IRow _ _ _ fields tags =>
+      negb (existsb (fun f => is_empty (fst f) || beqb (fst f) k_time) fields)
+      && negb (existsb (fun t => is_empty (fst t)) tags)
+  | MP.IBad => true
+  end.
+
 Definition has_fail (rs : list rec) : bool := existsb (fun r => match r with RFail => true | _ => false end) rs.
 
-Definition meas_ok (m : bytes) : bool := match m with [] => true | _ => valid_meas m end.
+(* since b4081e3 an empty measurement name is validated like any other (and rejected) *)
+Definition meas_ok (m : bytes) : bool := valid_meas m.
 
 Definition front_msgpack (typed : bool) (now : Z) (db : option bytes) (a : MP.ast) : dreq :=
   let o := MP.go_ops [] in
@@ -148,6 +166,8 @@ Definition front_msgpack (typed : bool) (now : Z) (db : option bytes) (a : MP.as
       let d := db_of db in
       if valid_db d then
         if forallb meas_ok (item_meas items) then
+          if negb (forallb item_names_ok items) then DStatus S4xx    (* ValidateRecordColumnNames, before any write *)
+          else
           let rr := row_recs o items in
           (* the row groups are written in Go-map order *)
           if has_fail rr && Nat.leb 2 (List.length rr) && negb (has_fail (col_recs items)) then DUnordered
@@ -279,12 +299,14 @@ Definition front (s : scfg) (r : request) : dreq :=
 Definition front_ev (s : scfg) (e : sevent) : event :=
   match e with SReq r => EReq (front s r) | SFlush => EFlush end.
 
-Definition run_server (s : scfg) (evs : list sevent) : result :=
-  run {| max_rows := sc_max s |} (map (front_ev s) evs) init.
+(* the configuration of the code as it is: flush panics are recovered *)
+Definition server_cfg (s : scfg) : cfg := {| max_rows := sc_max s; recover_flush := true |}.
 
-(* the guard of the positive theorems, on the requests: every batch a request decodes to has
-   unique, non-empty, not '_'-prefixed, comma-free column names, an int64 time column, and
-   columns of one length *)
+Definition run_server (s : scfg) (evs : list sevent) : result :=
+  run (server_cfg s) (map (front_ev s) evs) init.
+
+(* the guard of the row-conservation theorem, on the requests: every batch a request decodes to
+   has unique column names, an int64 time column, and columns of one length *)
 Definition request_ok (s : scfg) (r : request) : bool := dreq_okb (front s r).
 Definition sevent_ok (s : scfg) (e : sevent) : bool := event_okb (front_ev s e).
 
@@ -330,39 +352,40 @@ Record ccase := {
   cc_died : bool;
   cc_died_at : nat;           (* the step during which the process died *)
   cc_reason : N;              (* classified fatal panic: 1..4 as reason_code, 9 anything else *)
-  cc_rows : list (bytes * N)  (* rows in the stored Parquet files per "db/measurement", sorted *)
+  cc_rows : list (bytes * N); (* rows in the stored Parquet files per "db/measurement", sorted *)
+  cc_buffered : N;            (* ArrowBuffer.GetStats total_records_buffered at the end of the case *)
+  cc_written : N              (* ... total_records_written *)
 }.
 
 Definition case_result (c : ccase) : result :=
   run_server {| sc_max := cc_max c; sc_typed := cc_typed c; sc_now := 0 |} (cc_evs c).
 
-(* model and implementation agree: same status classes, same place and kind of death, same
-   stored rows.  When the process dies the answer to the dying step is not compared.  An
-   outcome the model marks as depending on Go's map iteration order is compared up to there. *)
+(* model and implementation agree: the process survived, same status classes, same stored rows.
+   An outcome the model marks as depending on Go's map iteration order is compared up to there.
+   A dead process never agrees: the model of the current code cannot die (C04_no_panic). *)
 Definition case_agrees (c : ccase) : bool :=
   let res := case_result c in
   let codes := map obs_code (r_obs res) in
   match r_end res with
   | Completed =>
       negb (cc_died c) && nlist_eqb (cc_codes c) codes && table_eqb (cc_rows c) (stored_table (r_state res))
-  | Died rs =>
-      cc_died c && Nat.eqb (cc_died_at c) (length codes)
-      && nlist_eqb (firstn (length codes) (cc_codes c)) codes
-      && existsb (fun r => N.eqb (reason_code r) (cc_reason c)) rs
+  | Died _ => false
   | Unpredicted =>
-      nlist_eqb (firstn (length codes) (cc_codes c)) codes
-      && (negb (cc_died c) || Nat.leb (length codes) (cc_died_at c))
+      negb (cc_died c) && nlist_eqb (firstn (length codes) (cc_codes c)) codes
   end.
 
 (* the property on the implementation's own output, independent of the model: the process
-   survived, and a sequence in which no request was accepted stored nothing *)
+   survived, every row the buffer accepted was written by the end of the case (every case ends
+   with a flush), and a sequence in which no request was accepted stored nothing *)
 Definition case_oracle (c : ccase) : bool :=
   negb (cc_died c)
+  && N.eqb (cc_written c) (cc_buffered c)
   && (existsb (N.eqb 2) (cc_codes c) || match cc_rows c with [] => true | _ => false end).
 
-(* which clause of the guard the decoded batches of a case violate (bit mask):
-   1 empty column name, 2 '_'-prefixed name, 4 ',' in a name, 8 columns of different lengths,
-   16 duplicate names / no int64 time column *)
+(* input classes of the decoded batches of a case (bit mask): 1 empty column name, 2 '_'-prefixed
+   name, 4 ',' in a name (the three classes that crashed the server before the fixes - kept for
+   the histogram), 8 columns of different lengths, 16 duplicate names / no int64 time column
+   (8 and 16 are the clauses of the row-conservation guard) *)
 Definition batch_class (b : tbatch) : N :=
   ((if existsb (fun c => match fst c with [] => true | _ => false end) (tb_cols b) then 1 else 0)
    + (if existsb (fun c => match fst c with x :: _ => N.eqb x c_under | [] => false end) (tb_cols b) then 2 else 0)
@@ -380,7 +403,6 @@ Definition event_class (e : event) : N :=
 
 (* the same classes read off the decoded row-format records of a MessagePack request, whether or
    not their conversion succeeds: a field/tag named "" (1), a field named "time" (8) *)
-Definition is_empty (n : bytes) : bool := match n with [] => true | _ => false end.
 Definition items_class (items : list MP.item) : N :=
   fold_left (fun a i => match i with
                         | MP.IRow _ _ _ fields tags =>
